@@ -201,6 +201,11 @@ class Source:
             it = Item(kind, name, header, s[start:item_end + 1], start, item_end + 1, body, modpath, attrs)
             it.parent = parent
             out.append(it)
+            if kind == 'const' and re.match(r'const\s+_\s*:\s*\(\s*\)\s*=\s*\{', s[start:item_end + 1]):
+                # derive output: `const _: () = { impl ... };` -- the impls inside are ordinary items of this module
+                bo = s.index('{', start)
+                bc = match_close(s, bo, end)
+                self._parse_block(bo + 1, bc, modpath, parent, out)
             if body and kind in ('impl', 'trait'):
                 self._parse_block(body[0] + 1, body[1], modpath, it, it.children)
             elif body and kind == 'mod':
